@@ -84,6 +84,26 @@ prop("C16", "exploration",
           "moved; non-trivial = at least one monitored observation of a non-empty library; distinct = new plan digest reaching "
           "a new observation hash")
 
+prop("C11", "exploration",
+     quick=[("mixed_audit", "fast", 900), ("crates_audit", "fast", 700), ("members_audit", "fast", 500)],
+     thorough=[("mixed_audit", "fast", 40000), ("crates_audit", "fast", 40000), ("members_audit", "fast", 30000),
+               ("tracks_audit", "fast", 20000)],
+     relevant=["audits"],
+     rule="after every step of the crate/track/membership workloads on an on-disk library an independent auditor opens the raw "
+          "SimDisk image through its own SQLite connection: integrity_check, foreign_key_check, verify(), every stored blob decoded "
+          "by the independent codec, 1.x path/parent-list/hierarchy encodings vs the model forest, 2.x successor chains, derived "
+          "columns, orphan rows; non-trivial = at least one audit of a non-empty library; distinct = new plan digest reaching a new "
+          "observation hash")
+prop("C02", "exploration",
+     quick=[("tracks_audit", "fast", 1200), ("mixed_audit", "fast", 400)],
+     thorough=[("tracks_audit", "fast", 60000), ("mixed_audit", "fast", 20000)],
+     relevant=["audits"],
+     rule="every blob the library stores during the track workloads is read raw by a second SQLite client and decoded by refcodec "
+          "(an independent implementation of the Engine layouts): frame (4-byte BE length = inflated length, one complete zlib "
+          "stream, loops uncompressed) and every field against the library's own observation; non-trivial = at least one audited "
+          "track write; distinct = new plan digest reaching a new observation hash",
+     assumptions=["refcodec is independent in code (no libdjinterop call, zlib one-shot API) but was written by the same author from "
+                  "the same format description: it pins today's wire format against later coordinated drift"])
 prop("C14", "fault_enumeration",
      quick=[("atomic", "fast", 320)],
      thorough=[("atomic", "fast", 12000), ("atomic", "san", 400)],
